@@ -30,9 +30,22 @@ Definition same_kind_scalar (l r : value) : bool :=
   | VNull, VNull | VBool _, VBool _ | VInt _, VInt _ | VFloat _, VFloat _ | VStr _, VStr _ => true
   | _, _ => false
   end.
-Definition inD (o : binop) (l r : value) : bool :=
+(* a string that reads as a number (docs/data-types.md: "42" + 10 is 52): an integer spelling
+   gives an int, any other numeric spelling a float *)
+Definition str_num (lib : golib) (s : string) : option value :=
+  match parse_int lib s with
+  | Some z => Some (VInt z)
+  | None => match parse_float lib s with Some f => Some (VFloat f) | None => None end
+  end.
+Definition str_and_number (lib : golib) (l r : value) : bool :=
+  match l, r with
+  | VStr _, (VInt _ | VFloat _) => true                       (* numeric: add; otherwise: "Age: " + 25 concatenates *)
+  | (VInt _ | VFloat _), VStr s => match str_num lib s with Some _ => true | None => false end
+  | _, _ => false
+  end.
+Definition inD (lib : golib) (o : binop) (l r : value) : bool :=
   match o with
-  | OAdd => (numeric l && numeric r) || both_str l r
+  | OAdd => (numeric l && numeric r) || both_str l r || str_and_number lib l r
   | OSub | OMul | OQuo | ORem | OPow | OBAnd | OBOr | OBXor | OShl | OShr => numeric l && numeric r
   | ODot => both_str l r
   | OEq | ONe | OSEq | OSNe | OLt | OLe | OGt | OGe | OCmp => same_kind_scalar l r || (numeric l && numeric r)
@@ -82,9 +95,17 @@ Definition rb (b : bool) : outcome := Val (VBool b).
 Definition ref_binop (lib : golib) (o : binop) (l r : value) : outcome :=
   match o with
   | OAdd =>
-      if both_str l r then match l, r with VStr a, VStr b => Val (VStr (a ++ b)) | _, _ => Throw end
-      else if both_int l r then Val (VInt (wrap64 (toi l + toi r)))
-      else Val (VFloat (tof l + tof r))
+      let plus (a b : value) : outcome :=
+        if both_int a b then Val (VInt (wrap64 (toi a + toi b))) else Val (VFloat (tof a + tof b)) in
+      match l, r with
+      | VStr a, VStr b => Val (VStr (a ++ b))
+      | VStr a, _ => match str_num lib a with
+                     | Some n => plus n r
+                     | None => Val (VStr (a ++ match r with VInt z => itoa z | VFloat f => fmt_float lib f | _ => "" end))
+                     end
+      | _, VStr b => match str_num lib b with Some n => plus l n | None => Throw end
+      | _, _ => plus l r
+      end
   | OSub => if both_int l r then Val (VInt (wrap64 (toi l - toi r))) else Val (VFloat (tof l - tof r))
   | OMul => if both_int l r then Val (VInt (wrap64 (toi l * toi r))) else Val (VFloat (tof l * tof r))
   | OQuo => if PrimFloat.eqb (tof r) 0%float then Throw else Val (VFloat (tof l / tof r))
